@@ -64,7 +64,7 @@ func (p *rpath) UnmarshalResourcePath(segments []restlicodec.Reader) error {
 // anyParams: a query-parameter struct that accepts and ignores every parameter.
 type anyParams struct{}
 
-func (p *anyParams) NewInstance() *anyParams                                 { return new(anyParams) }
+func (p *anyParams) NewInstance() *anyParams                               { return new(anyParams) }
 func (p *anyParams) DecodeQueryParams(restlicodec.QueryParamsReader) error { return nil }
 
 // anyBatchParams: same for the batch methods (reads ids, ignores the rest).
